@@ -54,9 +54,11 @@ def _gen_case(rng, tier, crash):
             continue
         ln = rng.choice([1, 2, 3, 4, 6, 12, 14]) if rng.random() < 0.8 else rng.randint(1, 5)
         ids = []
+        # at most one prune-flagged entry per foreign log, never the first one
+        prune_at = rng.randrange(1, ln) if (ln > 1 and rng.random() < 0.3) else -1
         for s in range(ln):
             b = rng.choices(["b", "n", "x"], [70, 15, 15])[0]
-            pr = 1 if (s > 0 and rng.random() < 0.08) else 0
+            pr = 1 if s == prune_at else 0
             foreign.append([fid, a, s, b, pr])
             ids.append(fid)
             fid += 1
